@@ -99,6 +99,9 @@ def case_lattice(dim, kernel, dtype, dx, base_cells):
                 lost = max(lost, float(ref1d[k][outside].sum() * LD(dx)))
                 idx_tol = max(idx_tol, float(abs(P[k, m]) / dx))
             wm = W[..., m].astype(LD)
+            if not (np.all(np.isfinite(wm.astype(np.float64))) and np.all(np.isfinite(lag_c[:, m])) and np.all(np.isfinite(lag_p[:, m]))):
+                fails.append(Fail(f"{kernel}:nonfinite", "non-finite interpolation weight or interpolated value", **ctx))
+                continue
             scale = float((1 / LD(dx)) ** dim)
             tol = 4 * eps * (4 + idx_tol)
             dev = float(np.abs(wm - refw).max()) / scale
